@@ -47,6 +47,9 @@ EmatOK(r) ==
         /\ RotationMat(A, E64(t))
         /\ NearMat(M3(t, r.mq), A, E64(t)) /\ NearMat(QM(Nums(t, r.q)), A, E64(t))           \* toQuat represents it
         /\ (c = 257 => NearMat(Upper3(t, r.seteuler), A, E64(t)))                             \* XYZ = setEulerAngles
+        \* ... which sets the whole matrix (a pure rotation), whatever it held before
+        /\ \A k \in 1..3 : D!DIsZero(Num(t, r.seteuler[(k - 1) * 4 + 4])) /\ D!DIsZero(Num(t, r.seteuler[12 + k]))
+        /\ D!DEq(Num(t, r.seteuler[16]), D!DOne)
 
 EextOK(r) ==
     LET t == r.t  A == M3(t, r.m33) IN
